@@ -666,16 +666,17 @@ func libOne(w *vf.Worker, doc *jval, size int) {
 				gotFlat = append(gotFlat, flatField{pe.Key, pe.Value.String()})
 			}
 		})
-		key := func() string { return fmt.Sprintf(":%02d:sep=%s:%s", size, sep, doc.String()) }
+		key := func() string { return fmt.Sprintf(":%02d:sep=%s:%s", size, sep, doc.keyText()) }
 		if p != nil {
-			w.Violation("lib-flatten-panics"+key(), fmt.Sprintf("Mlrmap.Flatten(%q) panics on %s: %v", sep, doc.String(), p), map[string]any{"doc": doc.String(), "sep": sep})
+			w.Violation("lib-flatten-panics"+key(), fmt.Sprintf("Mlrmap.Flatten(%q) panics on %s: %v", sep, doc.showText(), p), map[string]any{"doc": doc.String(), "sep": sep})
 			continue
 		}
 		if !sameFlat(gotFlat, flat) {
 			if class == "guard-false" {
 				libClassCounts["unconstrained-flatten-differs"]++
 			} else {
-				w.Violation("lib-flatten"+key(), fmt.Sprintf("Mlrmap.Flatten(%q) of %s = {%s}, documented key spreading gives {%s}", sep, doc.String(), flatText(gotFlat), flatText(flat)), map[string]any{"doc": doc.String(), "sep": sep})
+				gt, wt := clipDiff(flatText(gotFlat), flatText(flat))
+				w.Violation("lib-flatten"+key(), fmt.Sprintf("Mlrmap.Flatten(%q) of %s = {%s}, documented key spreading gives {%s}", sep, doc.showText(), gt, wt), map[string]any{"doc": doc.String(), "sep": sep})
 				continue
 			}
 		}
@@ -689,7 +690,7 @@ func libOne(w *vf.Worker, doc *jval, size int) {
 		}
 		p, _ = vf.Try(func() { got = back.CopyUnflattened(sep) })
 		if p != nil {
-			w.Violation("lib-unflatten-panics"+key(), fmt.Sprintf("Mlrmap.CopyUnflattened(%q) panics on {%s}: %v", sep, flatText(gotFlat), p), map[string]any{"doc": doc.String(), "sep": sep})
+			w.Violation("lib-unflatten-panics"+key(), fmt.Sprintf("Mlrmap.CopyUnflattened(%q) panics on {%s}: %v", sep, clipLong(flatText(gotFlat)), p), map[string]any{"doc": doc.String(), "sep": sep})
 			continue
 		}
 		if !sameShapeMlr(want, mlrval.FromMap(got)) {
@@ -697,7 +698,8 @@ func libOne(w *vf.Worker, doc *jval, size int) {
 			for pe := got.Head; pe != nil; pe = pe.Next {
 				g.put(pe.Key, fromMlrval(pe.Value))
 			}
-			w.Violation("lib-unflatten["+class+"]"+key(), fmt.Sprintf("unflatten(flatten(d)) with separator %q: d=%s flattened={%s} unflattened=%s expected %s (%s)", sep, doc.String(), flatText(gotFlat), shapeOf(g), shapeOf(want), class),
+			gt, wt := clipDiff(shapeOf(g), shapeOf(want))
+			w.Violation("lib-unflatten["+class+"]"+key(), fmt.Sprintf("unflatten(flatten(d)) with separator %q: d=%s flattened={%s} unflattened=%s expected %s (%s)", sep, doc.showText(), clipLong(flatText(gotFlat)), gt, wt, class),
 				map[string]any{"doc": doc.String(), "sep": sep})
 		}
 	}
@@ -754,7 +756,7 @@ func cliOne(w *vf.Worker, doc *jval, size int, allVerbFmts bool) {
 		flat, want, class := expectation(w, doc, sep)
 		w.Count("cli-class:"+class, 1)
 		w.Count("cli-sep:"+sep, 1)
-		key := fmt.Sprintf(":%02d:sep=%s:%s", size, sep, doc.String())
+		key := fmt.Sprintf(":%02d:sep=%s:%s", size, sep, doc.keyText())
 		// V3: the verbs in one process, JSON in and out
 		a3 := []string{"--json", "flatten", "-s", sep, "then", "unflatten", "-s", sep}
 		r3 := mlrRun(w, a3, docText)
@@ -767,7 +769,7 @@ func cliOne(w *vf.Worker, doc *jval, size int, allVerbFmts bool) {
 		if want != nil {
 			inGuardAny = true
 			if shape3 != shapeOf(want) {
-				w.Violation("verbs["+class+"]"+key, fmt.Sprintf("%s on %s gives %s (exit %d %s), expected %s (%s)", cmdline(a3), doc.String(), brief(r3.Stdout), r3.Exit, brief(r3.Stderr), shapeOf(want), class),
+				w.Violation("verbs["+class+"]"+key, fmt.Sprintf("%s on %s gives %s (exit %d %s), expected %s (%s)", cmdline(a3), doc.showText(), briefDiff(shape3, shapeOf(want), r3.Stdout), r3.Exit, brief(r3.Stderr), clipWant(shape3, shapeOf(want)), class),
 					map[string]any{"args": a3, "stdin": docText})
 			}
 		}
@@ -789,7 +791,7 @@ func cliOne(w *vf.Worker, doc *jval, size int, allVerbFmts bool) {
 			}
 			w.Count("cli-f-law", 1)
 			if shape4 != shapeOf(want) {
-				w.Violation("verbs-f["+class+"]"+key, fmt.Sprintf("%s on %s gives %s (exit %d %s), expected %s (%s; every field is listed, so -f selects all)", cmdline(a4), doc.String(), brief(r4.Stdout), r4.Exit, brief(r4.Stderr), shapeOf(want), class),
+				w.Violation("verbs-f["+class+"]"+key, fmt.Sprintf("%s on %s gives %s (exit %d %s), expected %s (%s; every field is listed, so -f selects all)", cmdline(clipArgs(a4)), doc.showText(), briefDiff(shape4, shapeOf(want), r4.Stdout), r4.Exit, brief(r4.Stderr), clipWant(shape4, shapeOf(want)), class),
 					map[string]any{"args": a4, "stdin": docText})
 			}
 		}
@@ -810,7 +812,7 @@ func cliOne(w *vf.Worker, doc *jval, size int, allVerbFmts bool) {
 			r1 := mlrRun(w, a1, docText)
 			if !okRes(r1) {
 				if want != nil {
-					w.Violation("nest-conv-fails[json>"+nf.name+"]"+key, fmt.Sprintf("%s fails on %s: %s", cmdline(a1), doc.String(), r1.String()), map[string]any{"args": a1, "stdin": docText})
+					w.Violation("nest-conv-fails[json>"+nf.name+"]"+key, fmt.Sprintf("%s fails on %s: %s", cmdline(a1), doc.showText(), r1.String()), map[string]any{"args": a1, "stdin": docText})
 				} else {
 					w.Count("cli-unconstrained-failure", 1)
 				}
@@ -835,7 +837,7 @@ func cliOne(w *vf.Worker, doc *jval, size int, allVerbFmts bool) {
 				}
 				if got != shapeOf(want) {
 					w.Violation("nest["+class+"][json>"+nf.name+">json]"+key,
-						fmt.Sprintf("%s | %s on %s: %s text %s comes back as %s %s, expected %s (%s)", cmdline(a1), cmdline(a2), doc.String(), nf.name, brief(r1.Stdout), got, perr, shapeOf(want), class),
+						fmt.Sprintf("%s | %s on %s: %s text %s comes back as %s %s, expected %s (%s)", cmdline(a1), cmdline(a2), doc.showText(), nf.name, brief(r1.Stdout), clipGot(got, shapeOf(want)), perr, clipWant(got, shapeOf(want)), class),
 						map[string]any{"args1": a1, "stdin": docText, "args2": a2, "mid": r1.Stdout, "got": r2.Stdout})
 				} else if r2.Stderr != "" {
 					w.Count("cli-stderr-on-success", 1)
@@ -849,7 +851,7 @@ func cliOne(w *vf.Worker, doc *jval, size int, allVerbFmts bool) {
 				q1 := mlrRun(w, b1, docText)
 				if q1.Stdout != r1.Stdout || q1.Exit != r1.Exit {
 					w.Violation("verb-vs-implicit[flatten]["+nf.name+"]"+key,
-						fmt.Sprintf("%s gives %s (exit %d) but the implicit %s gives %s (exit %d) on %s", cmdline(b1), brief(q1.Stdout), q1.Exit, cmdline(a1), brief(r1.Stdout), r1.Exit, doc.String()),
+						fmt.Sprintf("%s gives %s (exit %d) but the implicit %s gives %s (exit %d) on %s", cmdline(b1), brief(q1.Stdout), q1.Exit, cmdline(a1), brief(r1.Stdout), r1.Exit, doc.showText()),
 						map[string]any{"args_verb": b1, "args_implicit": a1, "stdin": docText})
 				}
 				b2 := cat(nf.in, []string{"--ojson", "--no-auto-unflatten", "unflatten", "-s", sep})
@@ -864,11 +866,30 @@ func cliOne(w *vf.Worker, doc *jval, size int, allVerbFmts bool) {
 	}
 	if inGuardAny {
 		w.Nontrivial(1)
-		w.AddSet("docs", doc.String())
+		w.AddSet("docs", doc.keyText())
 		if size >= 2 {
-			w.Sample(map[string]any{"part": "nest", "document": doc.String(), "flattened_with_colon": flatText(refFlatten(doc, ":"))})
+			w.Sample(map[string]any{"part": "nest", "document": clipLong(doc.String()), "flattened_with_colon": clipLong(flatText(refFlatten(doc, ":")))})
 		}
 	}
+}
+
+func clipGot(got, want string) string  { g, _ := clipDiff(got, want); return g }
+func clipWant(got, want string) string { _, w := clipDiff(got, want); return w }
+
+// briefDiff: the parsed shape near its first difference from the expectation when there is one, else the raw output.
+func briefDiff(shape, want, raw string) string {
+	if shape != "" && (len(shape) > 500 || len(want) > 500) {
+		return clipGot(shape, want)
+	}
+	return brief(raw)
+}
+
+func clipArgs(args []string) []string {
+	out := make([]string, len(args))
+	for i, a := range args {
+		out[i] = clipLong(a)
+	}
+	return out
 }
 
 func countLeaves(v *jval) int {
@@ -906,11 +927,18 @@ func nestWorker(w *vf.Worker) {
 		n := 0
 		sp.forEachDoc(mine, func(doc *jval) {
 			n++
-			w.Label(func() string { return sp.name + " " + doc.String() })
+			w.Label(func() string { return sp.name + " " + doc.showText() })
 			cliOne(w, doc, countLeaves(doc), !quick && sp.depth < 2)
 		})
 		w.Count("cli-space:"+sp.name, int64(n))
 	}
+	// the collection-size dimension (size.go)
+	forEachSizeDoc(sizeMaxCli(quick), nil, mine, func(doc *jval, shape, elem string, n int) {
+		w.Label(func() string { return "size " + doc.showText() })
+		w.Count("cli-size-shape:"+shape+"/"+elem, 1)
+		w.Count("cli-size-n:"+sizeBucket(n), 1)
+		cliOne(w, doc, countLeaves(doc), false)
+	})
 	for _, sp := range append(libSpaces(quick), lookLibSpaces(quick)...) {
 		sp := sp
 		n := 0
@@ -924,4 +952,11 @@ func nestWorker(w *vf.Worker) {
 		w.Count("lib-space:"+sp.name, int64(n))
 		flushLibCounts(w)
 	}
+	forEachSizeDoc(sizeMaxLib(quick), sizeExtraLib(quick), mine, func(doc *jval, shape, elem string, n int) {
+		w.Heartbeat()
+		w.Count("lib-size-shape:"+shape+"/"+elem, 1)
+		w.Count("lib-size-n:"+sizeBucket(n), 1)
+		libOne(w, doc, countLeaves(doc))
+	})
+	flushLibCounts(w)
 }
